@@ -144,7 +144,14 @@ def ascii_text(r, n=None):
     return ''.join(r.choice(string.ascii_letters + string.digits + ' _-.,/()') for _ in range(n))
 
 
+#: texts that float() would accept although they are neither integer literals nor contain a dot: they are TEXT (the library
+#: turns text into a number only where it reads as one: digits, or digits with a dot)
+FLOATISH_TEXT = ['5E3', '1e5', '1E-3', 'NaN', 'nan', 'Inf', '-Infinity', '+inf', 'infinity', '2e0', '-1E9']
+
+
 def nonnumeric_text(r, n=None):
+    if r.random() < 0.12:
+        return r.choice(FLOATISH_TEXT)
     s = ascii_text(r, n)
     return 'T' + s if s else 'T'
 
